@@ -24,3 +24,11 @@ func init() {
 	add("C18", "C18/annotations-handover", "C07/R2", ruleC07R2)
 	add("C08", "C08/decided-by-equal", "C12/decided-by-equal", ruleC12DecidedByEqual)
 }
+
+func init() {
+	for _, pid := range []string{"C03", "C17"} {
+		pid := pid
+		p := Properties[pid]
+		p.Rules = append(p.Rules, Rule{pid + "/errors-checked", func(c *Ctx) { ruleResolveErrorsChecked(c, pid+"/errors-checked") }})
+	}
+}
